@@ -212,7 +212,8 @@ def effective_case(case):
 
 
 def c01_case():
-  return st.tuples(L.case_strategy(), filter_strategy(), st.booleans(),
+  return st.tuples(L.case_strategy(), filter_strategy(),
+                   st.sampled_from(['dict', 'frozen', 'mixed', 'mixed']),
                    st.booleans(), st.integers(1, 3))
 
 
@@ -225,6 +226,7 @@ def c01_case():
         'calls on one module instance, through Module.init/init_with_output/'
         'apply and flax.core.apply; oracles: input snapshots, determinism, '
         'returned-collection key set, counter increments, no aliasing, '
+        '(variables also as a plain dict holding FrozenDict collections) '
         'observation features inert; non-trivial = program has a stateful op '
         'and the filter is neither True nor False, or a child is shared/'
         're-called')
@@ -253,7 +255,15 @@ def purity(case, ctx):
   # variables used for apply: drop observation collections
   base = {c: v0[c] for c in v0 if c not in ('intermediates', 'aux',
                                             'perturbations')}
-  variables = freeze(base) if frozen_in else unfreeze(base)
+  if frozen_in == 'frozen':
+    variables = freeze(base)
+  elif frozen_in == 'dict':
+    variables = unfreeze(base)
+  else:
+    # plain dict at the top, every second collection a caller-held FrozenDict
+    variables = {c: (freeze(unfreeze(base)[c]) if i % 2 == case['seed'] % 2
+                     else unfreeze(base)[c])
+                 for i, c in enumerate(sorted(base))}
   s_var = snap(variables)
   in_ids = container_ids(variables, set())
 
@@ -356,7 +366,7 @@ def purity(case, ctx):
       op.get('calls', 1) > 1 for op in L.collect(case['prog'], 'sub', case)) \
       or L.uses(case['prog'], ('reuse',), case)
   ctx.note(labels=['filter:' + filt['t'],
-                   'frozen-in' if frozen_in else 'dict-in',
+                   f'vars:{frozen_in}',
                    'shared' if case.get('shared') else 'noshared',
                    'stateful' if stateful else 'stateless',
                    f'cols{min(len(created_cols), 4)}'],
